@@ -22,7 +22,8 @@ RULE = ('seeded random histories of integrate(chunk)/predict/get_pva/get_time/se
         '(20..400 rows, irregular dt; class long: 2200..4000 rows with chunks of 1..1500 rows), initial buffer capacity 2..64 (long: up to 10000; class huge: one call of 1.06..3.7 million rows on the default capacity against the same rows in chunks; class repeated_stamps: tables with dt = 0 rows, chunks ending right before them), chunk sizes 0..n aimed at the capacity boundary '
         '(ending exactly at capacity, one short, one over, > 2x capacity), both altitude modes; a share of the histories '
         'is re-run in a NUMBA_BOUNDSCHECK=1 subprocess; non-trivial = history with more than one integrate call or any '
-        'predict/set_pva (the tests use exactly one integrate call); distinct = generator parameters')
+        'predict/set_pva (the tests use exactly one integrate call); distinct = generator parameters'
+        ' Round 4: class vertical - pitch exactly +-90 on every row (stationary, Earth-rate-consistent readings) with set_pva relabelling the same physical attitude under another heading; set_pva with the labels of the state in another order.')
 ASSUMPTIONS = ['Euler-angle extraction gives the same bits for an element whatever the batch length (probed at start-up; '
                'if not, the run is inconclusive)', 'in 2-D histories the states given to set_pva have VD = 0 (non-zero VD is C13)']
 REQUIRED_OBS = ['set_pva_with_permuted_labels', 'set_pva_angles_kept', 'tables_with_permuted_columns', 'model_comparisons', 'predict_calls', 'set_pva_calls', 'growth_events', 'empty_chunks', 'kernel_calls',
